@@ -8,6 +8,7 @@ package main
 
 import (
 	"fmt"
+	"go/constant"
 	"go/token"
 	"sort"
 	"strings"
@@ -689,5 +690,65 @@ func rulePAT9(p *Program) *RuleResult {
 		r.ok("patch|no-merge", fmt.Sprintf("none of the %d patch functions copies or merges an existing message", n), "fhirpath/patch", "call inventory (proto.Merge, proto.Clone, Message.Range)", true)
 	}
 	r.floor("patch_functions", 20)
+	return r
+}
+
+// PAT10: the node wrapper that records the last results for patch target
+// location is transparent — it evaluates the wrapped node on the very input it
+// was given — and slice identity means same first element *and* same length
+// (a prefix re-slice such as take(n) is a different collection).
+func rulePAT10(p *Program) *RuleResult {
+	r := newResult("PAT10")
+	fn, err := p.Method("fhirpath/patch", "storeLastExpression", "Evaluate")
+	if err != nil {
+		return r.anchorFail(err)
+	}
+	n := 0
+	for _, b := range fn.Blocks {
+		for _, ins := range b.Instrs {
+			c, ok := ins.(*ssa.Call)
+			if !ok || !c.Common().IsInvoke() || c.Common().Method.Name() != "Evaluate" {
+				continue
+			}
+			n++
+			okArgs := len(c.Common().Args) == 2 && len(fn.Params) == 3 && rootParam(c.Common().Args[0]) == fn.Params[1] && rootParam(c.Common().Args[1]) == fn.Params[2]
+			if okArgs {
+				r.ok("patch.storeLastExpression.Evaluate|delegate", "the wrapped node is evaluated on the wrapper's own context and input", p.instrPos(ins), "argument provenance", true)
+			} else {
+				r.bad("patch.storeLastExpression.Evaluate|delegate", "the wrapped node is not evaluated on the wrapper's own input collection", p.instrPos(ins),
+					"a step of the path sees another collection than the one the expression produced: the patch is applied to the wrong element")
+			}
+		}
+	}
+	if n != 1 {
+		r.undecided("patch.storeLastExpression.Evaluate|delegate", fmt.Sprintf("%d delegate evaluations found (1 expected)", n), p.pos(fn.Pos()), "shape changed")
+	}
+	// slices.IsIdentical on lengths
+	m := 0
+	for f := range p.AllFns {
+		if o := f.Origin(); o == nil || short(o) != "internal/slices.IsIdentical" || len(f.Blocks) == 0 {
+			continue
+		}
+		m++
+		if m > 1 {
+			continue
+		}
+		for _, c := range [][2]int{{0, 1}, {1, 0}, {1, 2}, {2, 1}, {3, 1}, {0, 0}} {
+			r.count("length_pairs", 1)
+			an := newAnalyzer()
+			j := an.analyze(f, []aval{sliceLen(c[0]), sliceLen(c[1])}).joinedReturn()
+			want := c[0] == c[1]
+			key := fmt.Sprintf("slices.IsIdentical|len %d,%d", c[0], c[1])
+			if j.k == kConst && j.c.Kind() == constant.Bool && constant.BoolVal(j.c) == want {
+				r.ok(key, fmt.Sprintf("IsIdentical of slices of length %d and %d is %v", c[0], c[1], want), p.pos(f.Pos()), "SCCP under the two lengths", true)
+			} else {
+				r.bad(key, fmt.Sprintf("IsIdentical of slices of length %d and %d is %s (want %v)", c[0], c[1], j.String(), want), p.pos(f.Pos()),
+					"a re-slice sharing the first element (take(n)) is taken for the same collection: the recorded container of the patch target is wrong")
+			}
+		}
+	}
+	if m == 0 {
+		return r.anchorFail(fmt.Errorf("anchor: no instantiation of slices.IsIdentical"))
+	}
 	return r
 }
